@@ -425,3 +425,15 @@ func SchemaOrder() {
 	verifrt.Watch("diff", diff)
 	verifrt.Assert(diff == "", "C17.same-schema")
 }
+
+// ShapeTokens, ParsePrelude, MergeSources: the type-system documents of this package for
+// the formatter harness (package hfmt).
+func ShapeTokens(shape int) []hparse.Tok {
+	s := &SB{}
+	SchemaShapes[shape](s)
+	return s.toks
+}
+func ParsePrelude() *ast.SchemaDocument { return parsePrelude() }
+func MergeSources(pre *ast.SchemaDocument, names []string, groups [][]hparse.Tok) *ast.SchemaDocument {
+	return mergeSources(pre, names, groups)
+}
